@@ -119,8 +119,24 @@ def run_property(pid, tier, seed, only=None, jobs=None):
     # light contracts: one pool task each (generation and discharge in the worker)
     _GEN.update(mine=light, tier=tier, world=world, timeout=timeout)
     if len(light) > 1 and jobs > 1:
-        with mp.get_context('fork').Pool(min(jobs, len(light))) as pool:
-            out = pool.map(_light_worker, range(len(light)), chunksize=1)
+        # (collected with an overall time limit: a worker that dies must not make the check wait for ever)
+        budget = int(os.environ.get('VERIF_POOL_S', 0)) or (7200 if tier == 'thorough' else 2400)
+        pool = mp.get_context('fork').Pool(min(jobs, len(light)))
+        try:
+            pending = [pool.apply_async(_light_worker, (i,)) for i in range(len(light))]
+            pool.close()
+            out = []
+            deadline = time.time() + budget
+            for c_, r in zip(light, pending):
+                try:
+                    out.append(r.get(timeout=max(1.0, deadline - time.time())))
+                except Exception as e:      # noqa  (mp.TimeoutError or a crashed worker)
+                    out.append({'id': c_.id, 'file': c_.file, 'func': c_.func, 'hash': None, 'line': None, 'paths': 0,
+                                'obligations': [], 'notes': [], 'covers': [], 'vacuous': False, 'wall': 0,
+                                'trusted': c_.trusted, 'serves': c_.serves, 'replay': c_.replay,
+                                'unsupported': ['no answer from the verification worker within %d s (%s)' % (budget, type(e).__name__)]})
+        finally:
+            pool.terminate()
     else:
         out = [_light_worker(i) for i in range(len(light))]
     for c, r in zip(light, out):
